@@ -49,6 +49,23 @@ fn ls_current_local_parent_fields() {
     kani::cover!(!item.is_sampled);
 }
 
+// C11 / C05: with several parents the FIRST parent's trace id and sampling flag are used.
+#[kani::proof]
+#[kani::unwind(4)]
+fn ls_current_local_parent_two_items() {
+    env();
+    let st = stk::install_stack(0, 4);
+    let a = stk::any_item(kani::any());
+    let b = stk::any_item(kani::any());
+    let h = st.borrow_mut().register_span_line(Some(vec![a, b])).unwrap();
+    let c = SpanContext::current_local_parent().unwrap();
+    assert!(c.trace_id == a.trace_id && c.span_id == a.parent_id, "current_local_parent must use the first parent's trace");
+    assert!(c.sampled == a.is_sampled, "current_local_parent must carry the first parent's sampling flag");
+    std::mem::forget((st, h));
+    kani::cover!(!a.is_sampled && b.is_sampled);
+    kani::cover!(a.is_sampled && !b.is_sampled);
+}
+
 // C07: a property closure that itself uses the tracing API (LocalSpan::add_event) must not panic.
 // NOT REGISTERED: enter_with_local_parent + with_properties on the thread's stack runs out of
 // memory at 30 GB (DESIGN.md §1); the same defect class is decided for add_properties below.
@@ -77,6 +94,23 @@ fn ls_closure_reenters_add_properties() {
     LocalSpan::add_properties(|| {
         let _ = SpanContext::current_local_parent();
         [("k", "v")]
+    });
+    std::mem::forget((st, h));
+    kani::cover!(true);
+}
+
+// C07: the closure may also return a LAZY iterator whose items use the tracing API.
+#[kani::proof]
+#[kani::unwind(3)]
+fn ls_closure_reenters_lazy_iterator() {
+    env();
+    let st = stk::install_stack(0, 4);
+    let h = st.borrow_mut().register_span_line(Some(vec![stk::any_item(true)])).unwrap();
+    LocalSpan::add_properties(|| {
+        [1u8].into_iter().map(|_| {
+            LocalSpan::add_event(Event::new(N_EV));
+            ("k", "v")
+        })
     });
     std::mem::forget((st, h));
     kani::cover!(true);
